@@ -345,3 +345,59 @@ func HTTPReadRequest(br *bufio.Reader) (*http.Request, []byte, error) {
 	body, err := io.ReadAll(req.Body)
 	return req, body, err
 }
+
+// RawExchange sends w from a fresh raw peer to a real server and waits for the event that proves the server has
+// finished with it. On streams the peer half-closes and reads to EOF: the server closes after its receive loop
+// saw EOF, and (with ServerOptions.InlinePool, or on HTTP) requests run inside that loop, so nothing of w is
+// still pending when EOF arrives. On UDP there is no connection: a valid sentinel datagram from the same socket
+// is sent after w (re-sent up to five times) and its answer awaited; datagrams of one socket pair are handled
+// in order by the server's single receive loop. websocket=true performs the opening handshake first.
+// settled=false means the event did not happen within slack (callers retry; it is never a verdict).
+func RawExchange(srv *Server, websocket bool, w []byte, sentinel func(try int) []byte, isSentinelReply func(d []byte) bool, slack time.Duration) (returned []byte, settled bool, err error) {
+	if srv.Network() == "udp" {
+		u, err := DialUDP(srv.Addr)
+		if err != nil {
+			return nil, false, err
+		}
+		defer u.Close()
+		if _, err := u.Write(w); err != nil {
+			return nil, false, err
+		}
+		for try := 0; try < 5; try++ {
+			if _, err := u.Write(sentinel(try)); err != nil {
+				return nil, false, err
+			}
+			deadline := time.Now().Add(slack / 5)
+			for time.Now().Before(deadline) {
+				d, ok := u.Recv(time.Until(deadline))
+				if !ok {
+					break
+				}
+				if isSentinelReply(d) {
+					return returned, true, nil
+				}
+				returned = append(returned, d...)
+			}
+		}
+		return returned, false, nil
+	}
+	c, err := DialStream(srv.Network(), srv.Addr)
+	if err != nil {
+		return nil, false, err
+	}
+	defer c.Close()
+	var pre []byte
+	if websocket {
+		br, err := WSClientHandshake(c, srv.Addr)
+		if err != nil {
+			return nil, false, err
+		}
+		pre, _ = br.Peek(br.Buffered())
+		pre = append([]byte{}, pre...)
+	}
+	c.SetWriteDeadline(time.Now().Add(slack))
+	c.Write(w) // a write error means the server has already rejected and closed: an outcome, not a problem
+	c.CloseWrite()
+	data, eof := c.ReadToEOF(slack)
+	return append(pre, data...), eof, nil
+}
